@@ -325,8 +325,18 @@ TProbe ==
                THEN ObsViol(<<"C11">>, IF onlyNewerManifests THEN "CrashOrphanNewerManifest"
                                        ELSE "CrashDirNotExact", det) ELSE <<>>
          v7 == IF Ev.open_ok /\ Ev.quiet /\ ~WellFormedVer(ToVer(Ev.dump.levels), files, NL)
-               THEN ObsViol(<<"C10">>, "CrashIllFormed", det) ELSE <<>> IN
-     JudgeAnd(((((((v0 \o v1) \o v2) \o v3) \o v4) \o v5) \o v6) \o v7)
+               THEN ObsViol(<<"C10">>, "CrashIllFormed", det) ELSE <<>>
+         \* a log other than the one being written whose records are ALL in table files of the
+         \* recovered version (largest sequence in the log <= largest sequence in the tables) is
+         \* not needed any more: once recovery and its background work are done it must be gone
+         deadLogs == IF "walmax" \in DOMAIN Ev.dump
+                     THEN {Ev.dump.walmax[i][1] : i \in {j \in 1..Len(Ev.dump.walmax) :
+                                Ev.dump.walmax[j][2] <= Ev.dump.tablemax}}
+                     ELSE {}
+         v8 == IF Ev.open_ok /\ Ev.quiet /\ deadLogs # {}
+               THEN ObsViol(<<"C11">>, "CrashDeadLogKept", [keys |-> SetToSeq(deadLogs), at |-> Ev.j])
+               ELSE <<>> IN
+     JudgeAnd((((((((v0 \o v1) \o v2) \o v3) \o v4) \o v5) \o v6) \o v7) \o v8)
   /\ Step(FALSE, "")
   /\ UNCHANGED <<coreVars, runInfo, keep, lastIter, manNo, isOpen, flushed, gpins, deferred,
                  ackStore, inflight>>
